@@ -43,7 +43,7 @@ type Case struct {
 // known findings live (see known_findings.json, "excluded by construction"); the search stays
 // out of them so that it can go on behind those findings (VERIF_C01_FEATURES forces a set, for triage).
 var coreFeatures = []string{"untyped", "schema-defaults", "examples", "x-nullable", "readonly", "minmaxprops", "schema-formats", "depth3", "file", "missing-opids", "tags", "meta", "security", "op-consumes", "polymorphism", "go-extensions"}
-var frontierFeatures = []string{"formatted-primitive-definition", "addl-props-ref-to-map", "cli-unrestricted", "ulid-format", "x-nullable-on-containers", "alias-of-escaped-name", "tuples", "x-go-name-on-object", "recursive-container", "flag-strategy-flag", "allof", "param-formats", "param-x-go-name", "poly-array-response", "expand-recursive", "expand-polymorphism", "alias-of-map", "nested-map-enum", "prop-named-as-definition", "hard-names-unfiltered"}
+var frontierFeatures = []string{"body-array-of-free-form", "formatted-primitive-definition", "addl-props-ref-to-map", "cli-unrestricted", "ulid-format", "x-nullable-on-containers", "alias-of-escaped-name", "tuples", "x-go-name-on-object", "recursive-container", "flag-strategy-flag", "allof", "param-formats", "param-x-go-name", "poly-array-response", "expand-recursive", "expand-polymorphism", "alias-of-map", "nested-map-enum", "prop-named-as-definition", "hard-names-unfiltered"}
 var featureList = append(append([]string{}, coreFeatures...), frontierFeatures...)
 
 func hasLetter(s string) bool {
@@ -80,7 +80,7 @@ type namer struct {
 
 var clientParamMethods = setOf("o", "string", "context", "httpclient", "writetorequest", "bindrequest", "httprequest", "withtimeout", "settimeout", "withcontext", "setcontext", "withhttpclient", "sethttpclient", "withdefaults", "setdefaults")
 var modelMethods = setOf("validate", "contextvalidate", "marshalbinary", "unmarshalbinary", "marshaljson", "unmarshaljson")
-var templateImports = setOf("http", "params", "runtime", "swag", "errors", "strfmt", "middleware", "security", "spec", "loads", "validate", "context", "io", "json", "fmt", "strings", "os", "url", "net", "flags", "server", "tls", "log", "time", "sync", "atomic", "signal", "strconv", "golangswaggerpaths", "yamlpc", "interpose", "cr", "cobra", "viper", "client", "models", "httptransport", "operations", "restapi", "path", "homedir", "bytes", "reader", "bufio", "multipart", "mime")
+var templateImports = setOf("err", "res", "ok", "raw", "rr", "route", "fds", "qs", "qr", "qv", "hdr", "tpe", "file", "header", "http", "params", "runtime", "swag", "errors", "strfmt", "middleware", "security", "spec", "loads", "validate", "context", "io", "json", "fmt", "strings", "os", "url", "net", "flags", "server", "tls", "log", "time", "sync", "atomic", "signal", "strconv", "golangswaggerpaths", "yamlpc", "interpose", "cr", "cobra", "viper", "client", "models", "httptransport", "operations", "restapi", "path", "homedir", "bytes", "reader", "bufio", "multipart", "mime")
 var badTags = setOf("models", "bool", "error", "string", "nil", "len", "new", "true", "false", "append", "make", "init", "main", "o", "restapi", "cli", "io", "os", "strconv", "context")
 var cliImports = setOf("json", "fmt", "swag", "cobra", "viper", "strfmt", "errors", "runtime", "client", "models", "httptransport", "os", "log", "path", "homedir")
 var rePlainIdent = regexp.MustCompile(`^[A-Za-z_][A-Za-z0-9_.\-]*$`)
@@ -236,6 +236,9 @@ func (n *namer) draw(t *rapid.T, label, kind, ns string, ok func(string) bool) s
 		}
 		if (kind == "parameter" || kind == "path-parameter" || kind == "header") && k == "body" {
 			continue // would collide with the body parameter (C08's subject)
+		}
+		if kind == "operation-id" && k == "new" {
+			continue // New + <other operation> collides with that operation's constructor (C08's subject)
 		}
 		if !n.unfilter {
 			rule := knownBad(kind, s)
@@ -598,11 +601,12 @@ func sanitize(doc J, feats map[string]bool, flatten string) {
 		}
 	}
 	if !feats["addl-props-ref-to-map"] {
-		// object with properties whose additionalProperties is a $ref to a map definition: ContextValidate ranges with an unused key
-		isMapDef := func(r any) bool {
+		// map values that are a $ref to a definition without properties (map, array, primitive alias): the
+		// generated (Context)Validate ranges over the map with an unused key
+		isStructDef := func(r any) bool {
 			rs, ok := r.(string)
 			if !ok {
-				return false
+				return true
 			}
 			t, _ := defs[strings.TrimPrefix(rs, "#/definitions/")].(J)
 			for hops := 0; t != nil && hops < 10; hops++ {
@@ -613,17 +617,33 @@ func sanitize(doc J, feats map[string]bool, flatten string) {
 				break
 			}
 			if t == nil {
-				return false
+				return true
 			}
 			_, hasProps := t["properties"]
-			return t["type"] == "object" && !hasProps
+			_, hasDisc := t["discriminator"]
+			return hasProps || hasDisc
 		}
 		walk(doc, func(o J) {
-			ap, ok := o["additionalProperties"].(J)
-			if _, hasProps := o["properties"]; ok && hasProps && isMapDef(ap["$ref"]) {
+			if ap, ok := o["additionalProperties"].(J); ok && !isStructDef(ap["$ref"]) {
 				o["additionalProperties"] = J{"type": "string"}
 			}
 		})
+	}
+	if !feats["body-array-of-free-form"] {
+		// a body parameter that is an array of free-form objects: the generated validation declares an unused index
+		for _, op := range specgen.Ops(doc) {
+			for _, p := range specgen.EffectiveParams(op) {
+				sch, _ := p.P["schema"].(J)
+				if sch == nil || sch["type"] != "array" {
+					continue
+				}
+				if it, ok := sch["items"].(J); ok && it["type"] == "object" {
+					if _, hasProps := it["properties"]; !hasProps {
+						sch["items"] = J{"type": "string"}
+					}
+				}
+			}
+		}
 	}
 	if !feats["recursive-container"] {
 		// a definition that contains itself other than through a property (map of itself, array of itself) overflows the stack
